@@ -22,6 +22,13 @@ Definition table2 : list (string * (list Z -> list Z)) :=
   ("ctor_vect", fun l => ctor_vect l :: nil) :: ("cast_vect", fun l => cast_vect (A 0 l)) ::
   ("isZero_I", b1 isZero_I) :: ("isZero_i64", b1 isZero_i64) :: ("isZero_u64", b1 isZero_u64) :: ("priv_sign", f1 priv_sign) ::
   
+  ("fact", f1 fact) :: ("swap", fun l => let r := swap (A 0 l) (A 1 l) in fst r :: snd r :: nil) ::
+  ("size_in_base", f2 size_in_base) :: ("isperfectpower", f1 isperfectpower) ::
+  ("seq_acc_u64", f3 seq_acc_u64) :: ("seq_addsub_u64", f2 seq_addsub_u64) :: ("seq_addsub_i64", f2 seq_addsub_i64) ::
+  ("seq_mixed", f4 seq_mixed) :: ("seq_mul_u64", f2 seq_mul_u64) ::
+  ("opPlusEq_Td", f3 opPlusEq_Td) :: ("opMinusEq_Td", f3 opMinusEq_Td) :: ("opMulEq_Td", f3 opMulEq_Td) ::
+  ("opPlusEq_Tu8", f2 opPlusEq_Tu8) :: ("opMinusEq_Tu8", f2 opMinusEq_Tu8) :: ("opMulEq_Tu8", f2 opMulEq_Tu8) ::
+  ("config", fun _ => config) ::
   ("logp", f2 logp) :: ("pp", f2 pp) :: ("vect_roundtrip", fun l => ctor_vect (cast_vect (A 0 l)) :: nil) ::
   ("nonZero", fun l => b2z (negb (Z.eqb (nonZero (A 0 l)) 0)) :: nil) ::
   ("compare_I", f2 compare_I) :: ("absCompare_I", f2 absCompare_I) :: ("absCompare_d", f3 absCompare_d) ::
